@@ -1352,6 +1352,149 @@ theorem model_serverHoldsOn (c : ServerView) : serverHoldsOn c (validateServer c
     simp only [serverHoldsOn, h1, h2, h3, e4]
     simp [h5, h6, h7, h8, h9, h10, h11]
 
+/-! ### the common validators block by block (server, client common, the web server they share) -/
+
+/-- `validateWebServerConfig` as the code has it = the first non-empty of its two blocks -/
+theorem web_blocks (tls : Option (Str × Str)) (port : Int) :
+    validateWebServer tls port = if webTLSBlock tls = [] then webPortBlock port else webTLSBlock tls := by
+  cases tls with
+  | none => simp [validateWebServer, webTLSBlock, webPortBlock, portErr]
+  | some ck =>
+    obtain ⟨cert, key⟩ := ck
+    simp only [validateWebServer, webTLSBlock, webPortBlock, portErr]
+    by_cases hc : cert = []
+    · simp [hc]
+    · by_cases hk : key = []
+      · simp [hc, hk]
+      · simp [hc, hk]
+
+/-- **the web server is accepted exactly when both of its blocks are**: the certificate pair (if the section
+    is there) AND the port range — a complete `webServer.tls` section does not excuse the port -/
+theorem web_accept_iff_blocks (tls : Option (Str × Str)) (port : Int) :
+    validateWebServer tls port = [] ↔ webTLSBlock tls = [] ∧ webPortBlock port = [] := by
+  rw [web_blocks]
+  by_cases h : webTLSBlock tls = []
+  · simp [h]
+  · simp [h]
+
+/-- whatever `webServer.tls` holds, an accepted web server has its port in 0..65535 -/
+theorem web_port_checked (tls : Option (Str × Str)) (port : Int) (h : validateWebServer tls port = []) :
+    0 ≤ port ∧ port ≤ 65535 := by
+  have hp := ((web_accept_iff_blocks tls port).mp h).2
+  simp only [webPortBlock, portErr] at hp
+  split at hp
+  · rename_i hv; exact (validatePort_iff port).mp hv
+  · cases hp
+
+theorem portErr_nil (p : Int) (i : Nat) : portErr p i = [] ↔ validatePort p = true := by
+  simp only [portErr]; split <;> simp_all
+
+/-- **server validation = conjunction of its blocks** (auth method, additional scopes, log level, the two web
+    server blocks, six port fields), each judged on its own field(s) alone -/
+theorem server_accept_iff_blocks (c : ServerView) :
+    validateServer c = [] ↔
+      authBlock c.authMethod = [] ∧ scopesBlock c.scopes = [] ∧ logBlock c.logLevel = [] ∧
+      webTLSBlock c.webTLS = [] ∧ webPortBlock c.webPort = [] ∧
+      portErr c.bindPort 1 = [] ∧ portErr c.kcpBindPort 2 = [] ∧ portErr c.quicBindPort 3 = [] ∧
+      portErr c.vhostHTTPPort 4 = [] ∧ portErr c.vhostHTTPSPort 5 = [] ∧ portErr c.tcpmuxPort 6 = [] := by
+  simp only [validateServer, append_nil_iff, web_accept_iff_blocks, authBlock, scopesBlock, logBlock]
+  constructor
+  · intro ⟨⟨⟨⟨⟨⟨⟨⟨⟨h1, h2⟩, h3⟩, h4, h4'⟩, h5⟩, h6⟩, h7⟩, h8⟩, h9⟩, h10⟩
+    exact ⟨h1, h2, h3, h4, h4', h5, h6, h7, h8, h9, h10⟩
+  · intro ⟨h1, h2, h3, h4, h4', h5, h6, h7, h8, h9, h10⟩
+    exact ⟨⟨⟨⟨⟨⟨⟨⟨⟨h1, h2⟩, h3⟩, h4, h4'⟩, h5⟩, h6⟩, h7⟩, h8⟩, h9⟩, h10⟩
+
+/-- **client common validation = conjunction of its blocks** -/
+theorem clientcommon_accept_iff_blocks (c : ClientCommonView) :
+    validateClientCommon c = [] ↔
+      authBlock c.authMethod = [] ∧ scopesBlock c.scopes = [] ∧ logBlock c.logLevel = [] ∧
+      webTLSBlock c.webTLS = [] ∧ webPortBlock c.webPort = [] ∧
+      heartbeatBlock c.hbTimeout c.hbInterval = [] ∧ protocolBlock c.protocol = [] := by
+  simp only [validateClientCommon, append_nil_iff, web_accept_iff_blocks, authBlock, scopesBlock, logBlock,
+    heartbeatBlock, protocolBlock]
+  constructor
+  · intro ⟨⟨⟨⟨⟨h1, h2⟩, h3⟩, h4, h4'⟩, h5⟩, h6⟩
+    exact ⟨h1, h2, h3, h4, h4', h5, h6⟩
+  · intro ⟨h1, h2, h3, h4, h4', h5, h6⟩
+    exact ⟨⟨⟨⟨⟨h1, h2⟩, h3⟩, h4, h4'⟩, h5⟩, h6⟩
+
+/-- a client common configuration accepted by `ValidateClientCommonConfig` respects the documented
+    constraints: allowed auth method / scopes / log level / transport protocol, a complete admin TLS pair, the
+    admin port in range (with or without the TLS section), heartbeat timeout not below the interval -/
+theorem clientcommon_accept (c : ClientCommonView) (h : validateClientCommon c = []) :
+    c.authMethod ∈ authMethods ∧ (∀ s ∈ c.scopes, s ∈ authScopes) ∧ c.logLevel ∈ logLevels ∧
+    (∀ cert key, c.webTLS = some (cert, key) → cert ≠ [] ∧ key ≠ []) ∧
+    (0 ≤ c.webPort ∧ c.webPort ≤ 65535) ∧
+    (0 < c.hbTimeout → 0 < c.hbInterval → c.hbInterval ≤ c.hbTimeout) ∧
+    c.protocol ∈ transportProtocols := by
+  obtain ⟨h1, h2, h3, h4, h5, h6, h7⟩ := (clientcommon_accept_iff_blocks c).mp h
+  refine ⟨?_, ?_, ?_, ?_, ?_, ?_, ?_⟩
+  · simp only [authBlock] at h1; split at h1
+    · rename_i hm; exact List.contains_iff_mem.mp hm
+    · cases h1
+  · simp only [scopesBlock] at h2; split at h2
+    · rename_i hm; intro s hs; exact List.contains_iff_mem.mp (List.all_eq_true.mp hm s hs)
+    · cases h2
+  · simp only [logBlock] at h3; split at h3
+    · rename_i hm; exact List.contains_iff_mem.mp hm
+    · cases h3
+  · intro cert key ht
+    simp only [webTLSBlock, ht] at h4
+    split at h4; · cases h4
+    split at h4; · cases h4
+    rename_i hc hk; exact ⟨hc, hk⟩
+  · simp only [webPortBlock, portErr] at h5; split at h5
+    · rename_i hv; exact (validatePort_iff _).mp hv
+    · cases h5
+  · intro ht hi
+    simp only [heartbeatBlock] at h6
+    split at h6
+    · cases h6
+    · rename_i hn
+      simp only [Bool.and_eq_true, decide_eq_true_eq, not_and] at hn
+      have := hn ⟨ht, hi⟩
+      omega
+  · simp only [protocolBlock] at h7; split at h7
+    · rename_i hm; exact List.contains_iff_mem.mp hm
+    · cases h7
+
+example : validateClientCommon ⟨[116, 111, 107, 101, 110], [], [105, 110, 102, 111], none, 7400, 90, 30, sTcp⟩ = [] := by decide
+example : validateClientCommon ⟨[116, 111, 107, 101, 110], [], [105, 110, 102, 111], some ([99], [107]), 70000, 0, 0, sTcp⟩ = [.port 0] := by decide
+example : validateServer ⟨[116, 111, 107, 101, 110], [], [105, 110, 102, 111], some ([99], [107]), 70000, 7000, 0, 0, 80, 443, 0⟩ = [.port 0] := by decide
+
+/-- predicate for the driver: what an accepting verdict of `ValidateClientCommonConfig` must imply -/
+def clientCommonHoldsOn (c : ClientCommonView) (accepted : Bool) : Bool :=
+  !accepted || (authMethods.contains c.authMethod && c.scopes.all (authScopes.contains ·) && logLevels.contains c.logLevel &&
+    (match c.webTLS with | some (cert, key) => cert != [] && key != [] | none => true) &&
+    validatePort c.webPort && !(0 < c.hbTimeout && 0 < c.hbInterval && decide (c.hbTimeout < c.hbInterval)) &&
+    transportProtocols.contains c.protocol)
+
+theorem model_clientCommonHoldsOn (c : ClientCommonView) :
+    clientCommonHoldsOn c (validateClientCommon c == []) = true := by
+  cases h : validateClientCommon c with
+  | cons e es => simp [clientCommonHoldsOn]
+  | nil =>
+    obtain ⟨h1, h2, h3, h4, h5, h6, h7⟩ := clientcommon_accept c h
+    have e1 : authMethods.contains c.authMethod = true := List.contains_iff_mem.mpr h1
+    have e2 : c.scopes.all (authScopes.contains ·) = true :=
+      List.all_eq_true.mpr fun s hs => List.contains_iff_mem.mpr (h2 s hs)
+    have e3 : logLevels.contains c.logLevel = true := List.contains_iff_mem.mpr h3
+    have e4 : (match c.webTLS with | some (cert, key) => cert != [] && key != [] | none => true) = true := by
+      cases ht : c.webTLS with
+      | none => rfl
+      | some ck => obtain ⟨cert, key⟩ := ck; have := h4 cert key ht; simp [this.1, this.2]
+    have e5 : validatePort c.webPort = true := (validatePort_iff _).mpr h5
+    have e6 : (!(0 < c.hbTimeout && 0 < c.hbInterval && decide (c.hbTimeout < c.hbInterval))) = true := by
+      by_cases ht : 0 < c.hbTimeout
+      · by_cases hi : 0 < c.hbInterval
+        · have := h6 ht hi
+          have hn : ¬ (c.hbTimeout < c.hbInterval) := by omega
+          simp [hn]
+        · simp [hi]
+      · simp [ht]
+    have e7 : transportProtocols.contains c.protocol = true := List.contains_iff_mem.mpr h7
+    simp only [clientCommonHoldsOn, e1, e2, e3, e4, e5, e6, e7]; rfl
+
 end ValidatePart
 
 /-! ## G. strict mode is a property of each load, whatever else is loading -/
